@@ -60,7 +60,8 @@ func main() {
 		fmt.Fprintf(os.Stderr, "known findings: %v\n", err)
 		os.Exit(2)
 	}
-	prog, err := core.Load(abs, false)
+	whole := *tier == "thorough" && props.NeedsWholeProgram[*prop]
+	prog, err := core.Load(abs, whole)
 	if err != nil {
 		// fails closed: an unanalysable tree is not a passing tree
 		rep.Fail("load", "packages", "-", err.Error())
